@@ -184,6 +184,34 @@ def run(S, which, T, L, P):
                 S.prove("bin-height=%s" % which, S.same(ys[b], w), twin=S.same(ys[b], w + 1))
 
 
+def h_bin_helper(N):
+    """util.bin(x, y, edges): bin i holds the cases with edges[i] <= x < edges[i+1];
+    every case inside [first edge, last edge) is in exactly one bin."""
+    def fn(S):
+        util = load.modules["verif.util"]
+        x = S.array("x", N, nan=True)
+        y = S.array("y", N, nan=False)
+        e = [S.real("e%d" % i) for i in range(3)]
+        S.assume(S.and_(e[0] < e[1], e[1] < e[2]))
+        xx, yy = util.bin(x, y, S.vector(e), func=np.mean) if not S.symbolic else util.bin(x, y, S.vector(e), func=load.modules["verif.util"].np.mean)
+        S.observe("xx", xx)
+        S.observe("yy", yy)
+        xs, ys = S.elements(x), S.elements(y)
+        inside_total = 0
+        for b in range(2):
+            sel = [i for i in range(N) if bool(S.and_(S.not_(S.isnan(xs[i])), xs[i] >= e[b], xs[i] < e[b + 1]))]
+            inside_total += len(sel)
+            if not sel:
+                S.prove("empty-bin-is-nan", S.and_(S.isnan(xx[b]), S.isnan(yy[b])))
+                continue
+            S.prove("bin-x=mean-of-its-cases", S.same(xx[b], ref.r_mean(S, [xs[i] for i in sel])), twin=S.same(xx[b], ref.r_mean(S, [xs[i] for i in sel]) + 1))
+            S.prove("bin-y=func-of-its-cases", S.same(yy[b], ref.r_mean(S, [ys[i] for i in sel])), twin=S.same(yy[b], ref.r_mean(S, [ys[i] for i in sel]) + 1))
+        covered = S.count(S.and_(S.not_(S.isnan(v)), v >= e[0], v < e[2]) for v in xs)
+        S.prove("each-case-in-exactly-one-bin", S.same(covered, inside_total))
+    return fn
+
+
 def harnesses(tier):
     thorough = tier == "thorough"
-    return [Harness("diagrams", h_diagrams(2, 2 if thorough else 1, 2), "draw-call arguments of 6 diagrams vs their definitions")]
+    return [Harness("diagrams", h_diagrams(2, 2 if thorough else 1, 2), "draw-call arguments of 6 diagrams vs their definitions"),
+            Harness("bin_helper", h_bin_helper(3 if thorough else 2), "util.bin: the binning helper of the binned diagrams")]
